@@ -18,7 +18,13 @@ struct Mon {
     err: Option<String>,
 }
 
+/// declared range of a parameter, widened by 1e-12 relative so that an implementation which
+/// writes the same bound in another way (pi/6 vs 30 degrees) is not reported
 fn range_of(name: &str, len_max: f64, ratio_max: f64) -> Option<(f64, f64)> {
+    range_exact(name, len_max, ratio_max).map(|(lo, hi)| (lo - 1e-12 * lo.abs().max(1.0), hi + 1e-12 * hi.abs().max(1.0)))
+}
+
+fn range_exact(name: &str, len_max: f64, ratio_max: f64) -> Option<(f64, f64)> {
     match name {
         "cell.length" => Some((0.01, len_max)),
         "cell.ratio" => Some((0.1, ratio_max)),
@@ -66,11 +72,11 @@ impl Mon {
                 format!("stage {} {}: cell angle of a rectangular-family group changed from {:e} to {:e}", stage, what, f64::from_bits(self.angle0), ang),
             ));
         }
-        if self.group_family == "Monoclinic" && !(ang >= PI / 6.0 && ang <= PI / 2.0) {
+        if self.group_family == "Monoclinic" && !(ang >= PI / 6.0 - 1e-12 && ang <= PI / 2.0 + 1e-12) {
             self.add(Violation::new("parameter-out-of-range", call, format!("stage {} {}: oblique cell angle {:e} outside [pi/6, pi/2]", stage, what, ang)).sig("param", "cell.angle"));
         }
         let a = s.cell().a();
-        if !(a >= 0.01 && a <= self.len_max) {
+        if !(a >= 0.01 - 1e-14 && a <= self.len_max * (1.0 + 1e-12)) {
             self.add(Violation::new("parameter-out-of-range", call, format!("stage {} {}: cell length {:e} outside [0.01, {:e}]", stage, what, a, self.len_max)).sig("param", "cell.length"));
         }
     }
